@@ -2731,20 +2731,34 @@ impl Engine for Json {
         "json"
     }
     fn rule(&self) -> String {
-        "ProcessState values constructed directly from a generated recipe (hostile names: quotes, controls, \
-         non-BMP, U+FFFD from lossy decoding; every CPU/pointer width incl. unknown x every context kind; threads \
-         without frames; crashing thread without frames or out of range; unloaded modules; bit flips; arbitrary \
-         soft_errors JSON; deliberate non-well-formed states that must panic in model and code alike). Compared: \
-         print_json(pretty=false) bytes = Lean printJson(alpha(state)) bytes; Lean parser+Conforms verdict on the \
-         real bytes; pretty output parses (in Lean and serde_json) to the same value. Oracle on the \
-         implementation alone: UTF-8, serde_json parse, counts, frame numbers, crashing-thread copy, offsets, \
-         modules mirror, hex widths, documented <u32>s. Non-trivial: the state has at least one thread with a \
-         frame or a module, and print_json returned."
+        "Two sources of ProcessState values. (1) `json st …`: constructed directly from a generated recipe (hostile \
+         names: quotes, controls, non-BMP, U+FFFD from lossy decoding; every CPU/pointer width incl. unknown x every \
+         context kind; threads without frames and with every CallStackInfo; crashing thread without frames or out \
+         of range; unloaded modules; crash_info with memory_accesses of every MemoryAccessType / guard flag / \
+         unknown size, instruction-pointer updates, both adjusted-address kinds, every CrashInconsistency, bit \
+         flips; arbitrary soft_errors JSON; deliberate non-well-formed states that must panic in model and code \
+         alike). (2) `json procx …` / `json proc …`: produced by process_minidump from synthesized dumps (crashing \
+         instruction from 36 amd64 encodings or random bytes, exception records of Windows/Linux/macOS shape, \
+         register values around mapped / guard / null / non-canonical addresses, memory-info regions, \
+         lsb-release/limits/maps streams, thread names, modules, overlapping unloaded modules, several threads \
+         with a Breakpad dump thread; MozSoftErrors texts). Compared: print_json(pretty=false) bytes = Lean \
+         printJson(alpha(state)) bytes; Lean parser + Conforms + Consistent verdicts on the real bytes; \
+         undocumented members and enumeration values; pretty output parses (in Lean and serde_json) to the same \
+         value. Oracle on the implementation alone: UTF-8, serde_json parse, counts, frame numbers, \
+         crashing-thread copy and registers (set, value, width), offsets, modules mirror, hex widths, documented \
+         <u32>s, every closed enumeration of json-schema.md against the documented strings, mirrors of \
+         memory_accesses / crash_inconsistencies / adjusted_address / possible_bit_flips / trust, guard-page flag \
+         only as true; on the processor path also: crashing thread = the thread the exception names, state inside \
+         WF. Non-trivial: the state has at least one thread with a frame or a module, and print_json returned."
             .into()
     }
     fn exhaustive_part(&self) -> Option<String> {
         Some("10 CPUs x 9 context kinds x {all, some} register validity as frame 0 of the crashing thread; every \
-              code point 0..=0xff and the UTF-8 length/surrogate boundaries in one name"
+              code point 0..=0xff and the UTF-8 length/surrogate boundaries in one name; per CPU all 16 \
+              MemoryAccessType x guard x size-known combinations, all 5 CrashInconsistency values (together and \
+              alone), adjusted address of each kind, every instruction-pointer-update shape; all 96 \
+              BitFlipDetails combinations with the real confidence(); the 36-entry instruction table x {read, \
+              write} access violation through process_minidump"
             .into())
     }
     fn generate(&self, tier: Tier, rng: &mut Rng, emit: &mut dyn FnMut(String)) {
